@@ -156,6 +156,24 @@ def stepGen (ws : List String) : String :=
     | _, _, _, _ => "bad-op"
   | _ => "bad-op"
 
+/-- `gend <unit stops csv> <target stops csv> <a:b,…>`: the position generator under disallowed successors (NR.Gen.genDis). -/
+def stepGenD (ws : List String) : String :=
+  match ws with
+  | [src, tgt, dis] =>
+    let pairs : Option (List (Nat × Nat)) :=
+      allSome ((parseCsv dis).map (fun x => match x.splitOn ":" with
+        | [a, b] => (match a.toNat?, b.toNat? with
+          | some a, some b => some (a, b)
+          | _, _ => none)
+        | _ => none))
+    match parseNats? (parseCsv src), parseNats? (parseCsv tgt), pairs with
+    | some src, some tgt, some ps =>
+      let cs := Gen.genDis (fun a b => ps.contains (a, b)) src tgt
+      if cs.isEmpty then "gend -"
+      else "gend " ++ ";".intercalate (cs.map (fun c => ".".intercalate (c.map toString)))
+    | _, _, _ => "bad-op"
+  | _ => "bad-op"
+
 def sortNats (l : List Nat) : List Nat := (l.toArray.qsort (· < ·)).toList
 
 def showNats (l : List Nat) : String := if l.isEmpty then "-" else ",".intercalate ((sortNats l).map toString)
@@ -544,6 +562,7 @@ def step (st : State) (line : String) : State × String :=
   | "est" :: ws => (st, stepEst ws)
   | "coll" :: ws => let (c, o) := stepColl st.coll ws; ({ st with coll := c }, o)
   | "gen" :: ws => (st, stepGen ws)
+  | "gend" :: ws => (st, stepGenD ws)
   | "par" :: ws => (st, stepPar ws)
   | "fmt" :: ws => (st, stepFmt ws)
   | "td" :: ws => let (t, o) := stepTd st.td ws; ({ st with td := t }, o)
